@@ -89,6 +89,7 @@ def run(tier):
         one_class(chk, F, cn, info)
     drivers(chk, F, classes)
     registration(chk, F, classes)
+    class_dimensions(chk, F, classes)
     chk.floor("python classes", len(classes), 56)
     chk.floor("forwarding methods", chk.analysed.get("forwarding methods", 0), 56 * 30)
     chk.floor("operator dunders", chk.analysed.get("operator dunders", 0), 56 * 4)
@@ -298,6 +299,7 @@ def drivers(chk, F, classes):
                body_loc(F, b), found=sorted(called), required=["try_" + name])
         # (b) per length-dispatched arm: the array length(s), the SVector parameter types and the class agree
         arms = 0
+        arm_lens = []
         bad = []
         for n in walk.walk_body(b):
             if n.get("k") != "if" or n["c"]["k"] != "let":
@@ -319,6 +321,7 @@ def drivers(chk, F, classes):
             if not lens:
                 continue
             arms += 1
+            arm_lens.append(tuple(lens))
             then = n["then"]
             for x in walk.walk(then):
                 if x.get("k") == "closure" and all(is_dual_vector(F, p["t"]) for p in x["params"]) and x["params"]:
@@ -352,6 +355,13 @@ def drivers(chk, F, classes):
                                     cd = [int(d) for d in CONST_RE.findall(classes[cn]["inner"])]
                                     if cd and cd != lens:
                                         bad.append("arm %s extracts results as %s over %s" % (lens, cn, classes[cn]["inner"]))
+        if arms and arm_lens:
+            dup = sorted({l for l in arm_lens if arm_lens.count(l) > 1})
+            firsts = sorted({l[0] for l in arm_lens})
+            gaps = [k for k in range(1, max(firsts) + 1) if k not in firsts] if firsts else []
+            chk.ob("driver|%s|dispatch" % name, not dup and not gaps, "the length dispatch has one arm per size: no size twice (the second arm "
+                   "would be unreachable) and no hole below the largest size", body_loc(F, b),
+                   found=("duplicate arms for %s; " % dup if dup else "") + ("no arm for size %s" % gaps if gaps else "") or "%d distinct sizes" % len(set(arm_lens)))
         if arms:
             chk.ob("driver|%s|arms" % name, not bad, "every length-dispatched arm uses its own length(s) for the array, the SVector types and the class",
                    body_loc(F, b), found="; ".join(sorted(set(bad))[:6]) or "%d arms consistent" % arms)
@@ -393,6 +403,21 @@ def drivers(chk, F, classes):
             else:
                 chk.ob("driver|%s|rows" % name, its == {"row_iter"}, "matrix results are converted row by row (no transposition)", body_loc(F, b),
                        found=sorted(its), required=["row_iter"], nontrivial=False)
+
+
+def class_dimensions(chk, F, classes):
+    """a class named ..._<m>[_<n>] wraps the number type of exactly these static dimensions"""
+    n_ = 0
+    for cn, info in sorted(classes.items()):
+        toks = re.findall(r"_(\d+)", cn)
+        dims = [int(d) for d in CONST_RE.findall(info["inner"])]
+        if not dims or len(toks) < len(dims) or not re.search(r"_\d+$", cn):
+            continue
+        named = [int(x) for x in toks[-len(dims):]]      # the trailing numbers (a float width such as _64 may precede them)
+        n_ += 1
+        chk.ob("class|%s|dimension" % cn, dims == named, "the static dimension in a class name is the dimension of the wrapped number type",
+               "src/python", found="%s wraps %s" % (cn, info["inner"]), required="dimensions %s" % named, nontrivial=False)
+    chk.count("dimensioned classes", n_)
 
 
 def registration(chk, F, classes):
